@@ -138,7 +138,7 @@ def nudged(s3, rng, k=4):
 STANDARD = {"A", "C", "G", "U", "DA", "DC", "DG", "DT"}
 
 
-def to_table(s3, het_every=0):
+def to_table(s3, het_every=0, alt_every=0):
     """the atoms as rows of an atom table; modified nucleotides are HETATM records, as the PDB writes them (and, with het_every = k,
     every k-th residue as well: the record type is presentation, both formats carry it and neither reader may drop a residue for it)"""
     t = []
@@ -148,9 +148,15 @@ def to_table(s3, het_every=0):
         for a in r.atoms:
             if len(a.name) > 4 or len(r.name) > 3 or len(r.chain) != 1:
                 return None
-            t.append({"record_type": rt, "name": a.name, "altLoc": "", "resName": r.name, "chainID": r.chain, "resSeq": r.number, "iCode": r.icode or "",
-                      "element": genatoms.element_of(a.name), "charge": "", "occ100": 100, "het": False, "model": 1, "serial": serial,
-                      "x1000": int(round(a.x * 1000)), "y1000": int(round(a.y * 1000)), "z1000": int(round(a.z * 1000)), "b100": 0})
+            row = {"record_type": rt, "name": a.name, "altLoc": "", "resName": r.name, "chainID": r.chain, "resSeq": r.number, "iCode": r.icode or "",
+                   "element": genatoms.element_of(a.name), "charge": "", "occ100": 100, "het": False, "model": 1, "serial": serial,
+                   "x1000": int(round(a.x * 1000)), "y1000": int(round(a.y * 1000)), "z1000": int(round(a.z * 1000)), "b100": 0}
+            if alt_every and i_ % alt_every == 2:
+                # two conformers, the second-listed one the more populated: a displaced copy A (0.30) before the atom itself as B (0.70)
+                t.append(dict(row, altLoc="A", occ100=30, x1000=row["x1000"] + 3000))
+                serial += 1
+                row = dict(row, altLoc="B", occ100=70, serial=serial)
+            t.append(row)
             serial += 1
     return t
 
@@ -277,8 +283,8 @@ def run(ctx):
                                       {"structure": name, "base": bkind, "shift": shift, "format": fmt,
                                        "in_memory": {k: refm[k] for k in (diff or diff0)}, "from_file": {k: gotm[k] for k in (diff or diff0)}})
             # (v) PDB vs mmCIF of the same atoms
-            for het_every in (0, 3):
-                table = to_table(base, het_every)
+            for het_every, alt_every in ((0, 0), (3, 0), (0, 4)):
+                table = to_table(base, het_every, alt_every)
                 if not table:
                     continue
                 outs = {}
@@ -289,12 +295,12 @@ def run(ctx):
                         s3f = read_3d_structure(f)
                     outs[fmt] = (full(s3f), min_margin(s3f))
                 decided = min(outs["pdb"][1], outs["cif"][1]) >= 1e-6
-                ctx.count((name, bkind, "format", het_every), nonempty and decided, "format" if not het_every else "format+hetatm")
+                ctx.count((name, bkind, "format", het_every, alt_every), nonempty and decided, "format+altloc" if alt_every else "format" if not het_every else "format+hetatm")
                 if decided:
                     diff = [k for k in outs["pdb"][0] if outs["pdb"][0][k] != outs["cif"][0][k]]
                     if diff:
                         ctx.violation(f"annotation differs between the PDB and the mmCIF serialisation of the same atoms: {diff}",
-                                      {"structure": name, "base": bkind, "hetatm_every": het_every, "pdb": {k: outs['pdb'][0][k] for k in diff}, "cif": {k: outs['cif'][0][k] for k in diff}})
+                                      {"structure": name, "base": bkind, "hetatm_every": het_every, "altloc_every": alt_every, "pdb": {k: outs['pdb'][0][k] for k in diff}, "cif": {k: outs['cif'][0][k] for k in diff}})
                 else:
                     excluded += 1
             if len(ctx.coverage["samples"]) < 2:
